@@ -61,7 +61,15 @@ def build_loss(c, kind, sel, tp, ts_sel, n, weighted, spread_form, time_kind="sy
         L.t = [int(i + 1) for i in range(n)]
     count = kind in ("Poisson", "NegBinom")
     L.y = [[(c.intreal("y%d_%d" % (i, j), lo=1, hi=30) if count else c.real("y%d_%d" % (i, j), lo=0.5, hi=30)) for j in range(p)] for i in range(n)]
-    L.w = [[(c.real("w%d_%d" % (i, j), lo=0.2, hi=3) if weighted else 1.0) for j in range(p)] for i in range(n)]
+    # weights: False (none) | True / "full" ((n,p) matrix, or (n,) for one state) | "per_state" ((p,) vector) | "scalar" ([w])
+    if weighted == "per_state":
+        wv = [c.real("w_%d" % j, lo=0.2, hi=3) for j in range(p)]
+        L.w = [list(wv) for _ in range(n)]
+    elif weighted == "scalar":
+        w0 = c.real("w", lo=0.2, hi=3)
+        L.w = [[w0] * p for _ in range(n)]
+    else:
+        L.w = [[(c.real("w%d_%d" % (i, j), lo=0.2, hi=3) if weighted else 1.0) for j in range(p)] for i in range(n)]
     if kind in ("Normal", "Gamma", "NegBinom"):
         if spread_form == "scalar":
             s0 = c.real("sp", lo=0.3, hi=4)
@@ -78,7 +86,11 @@ def build_loss(c, kind, sel, tp, ts_sel, n, weighted, spread_form, time_kind="sy
         L.sp = [[None] * p for _ in range(n)]
         sp_arg = None
     y_arg = mat(c, L.y) if p > 1 else arr(c, [r[0] for r in L.y])
-    if weighted:
+    if weighted == "per_state":
+        w_arg = arr(c, L.w[0])
+    elif weighted == "scalar":
+        w_arg = arr(c, [L.w[0][0]])
+    elif weighted:
         w_arg = mat(c, L.w) if p > 1 else arr(c, [r[0] for r in L.w])
     else:
         w_arg = None
@@ -268,6 +280,11 @@ class C06(Check):
         us.append(cost_unit("Normal", ("R",), ("gamma",), 3, time_kind="int_list"))
         us.append(cost_unit("Square", ("S",), None, 2, entry="costIV", time_kind="int_array"))
         us.append(cost_unit("Square", ("J", "S"), None, 2, entry="residual", time_kind="int_array"))
+        # every accepted weight form: per-state vector (p,), single scalar [w], with n != p so that the forms cannot be confused
+        us.append(cost_unit("Square", ("R", "J"), None, 3, weighted="per_state"))
+        us.append(cost_unit("Normal", ("J", "S"), ("gamma",), 3, weighted="per_state", spread_form="per_state"))
+        us.append(cost_unit("Square", ("R", "J"), None, 3, weighted="scalar"))
+        us.append(cost_unit("Square", ("S",), None, 3, weighted="scalar", entry="residual"))
         if tier != "quick":
             for kind in ("Poisson", "Gamma", "NegBinom"):
                 us.append(cost_unit(kind, ("J",), None, 2, time_kind="int_array"))
